@@ -26,6 +26,8 @@ struct LinkState {
     packets_seen: usize,
     write_plan: VecDeque<WriteStep>,
     read_plan: VecDeque<ReadStep>,
+    flush_plan: VecDeque<WriteStep>,
+    flush_calls: usize,
     inbox: VecDeque<u8>,
     blocked: bool,
     releases: usize,
@@ -167,7 +169,16 @@ impl Write for Link {
             Err(false) => Err(std::io::Error::from(std::io::ErrorKind::BrokenPipe)),
         }
     }
-    fn flush(&mut self) -> std::io::Result<()> { Ok(()) }
+    fn flush(&mut self) -> std::io::Result<()> {
+        // a transport that buffers (TLS, websocket): flushing a non-blocking socket may have to be retried
+        let mut st = self.0.lock().unwrap();
+        st.flush_calls += 1;
+        match st.flush_plan.pop_front() {
+            Some(WriteStep::Block) => Err(std::io::Error::from(std::io::ErrorKind::WouldBlock)),
+            Some(WriteStep::Error) => Err(std::io::Error::from(std::io::ErrorKind::BrokenPipe)),
+            _ => Ok(()),
+        }
+    }
 }
 
 impl tokio::io::AsyncRead for Link {
@@ -203,6 +214,7 @@ struct Shared {
     v5: bool,
     write_plan: Mutex<VecDeque<WriteStep>>,
     read_plan: Mutex<VecDeque<ReadStep>>,
+    flush_plan: Mutex<VecDeque<WriteStep>>,
     answer: bool,
     refuse: Mutex<usize>,
     connect_delay_ms: u64,
@@ -224,6 +236,7 @@ impl Shared {
             v5: self.v5, wire: Vec::new(), parsed: 0, packets_seen: 0,
             write_plan: std::mem::take(&mut *self.write_plan.lock().unwrap()),
             read_plan: std::mem::take(&mut *self.read_plan.lock().unwrap()),
+            flush_plan: std::mem::take(&mut *self.flush_plan.lock().unwrap()), flush_calls: 0,
             inbox: VecDeque::new(), blocked: false, releases: 0, write_waker: None, read_waker: None, eof: false,
             answer: self.answer, write_calls: 0, read_calls: 0, wlog: Vec::new(), rlog: Vec::new(),
         })));
@@ -300,6 +313,7 @@ pub fn run(head: &str, steps: &str) -> Result<String, String> {
     let (wplan, rplan) = parse_plans(head);
     let shared = Arc::new(Shared {
         links: Mutex::new(Vec::new()), v5, write_plan: Mutex::new(wplan), read_plan: Mutex::new(rplan),
+        flush_plan: Mutex::new(get("fplan").unwrap_or("").split(',').filter_map(|t| match t { "b" => Some(WriteStep::Block), "e" => Some(WriteStep::Error), "o" => Some(WriteStep::Accept(0)), _ => None }).collect()),
         answer: get("answer").unwrap_or("1") != "0", refuse: Mutex::new(get("refuse").and_then(|x| x.parse().ok()).unwrap_or(0)),
         connect_delay_ms: get("cdelay").and_then(|x| x.parse().ok()).unwrap_or(0),
     });
